@@ -37,8 +37,10 @@ OutOf(ev) ==
 \* the logged observation must be the projection of the state after the step
 ObsOK(ev) ==
     /\ E("C35") => ev.lstat = ExpStatus'
-    /\ E("C32") => ((ev.st = "idle") = (phase' = "idle"))       \* "returns pairing to idle", and only then
     /\ ev.encrypted = enc'
+
+\* "... is answered with Pairing Failed and returns pairing to idle"
+FailedIsIdle(ev) == E("C32") => (OutOf(ev) = "failed" => ev.st = "idle")
 
 Explain(ev) ==
     \/ /\ ev.e = "Reset"
@@ -47,9 +49,9 @@ Explain(ev) ==
     \/ /\ ev.e = "Req"
        /\ Req([io |-> ev.io, oob |-> ev.oobf, auth |-> ev.auth, maxkey |-> ev.maxkey, idist |-> ev.idist, rdist |-> ev.rdist],
               OutOf(ev), IF ev.rsp THEN ev.rauth ELSE 0, IF ev.alg \in Methods THEN ev.alg ELSE "none")
-       /\ ObsOK(ev)
-    \/ ev.e = "Pdu"  /\ Pdu(ev.op, ev.lc, ev.label, OutOf(ev), ev.dask > 0 /\ ev.ddisp > 0) /\ ObsOK(ev)
-    \/ ev.e = "Poll" /\ Poll(OutOf(ev)) /\ ObsOK(ev)
+       /\ ObsOK(ev) /\ FailedIsIdle(ev)
+    \/ ev.e = "Pdu"  /\ Pdu(ev.op, ev.lc, ev.label, OutOf(ev), ev.dask > 0 /\ ev.ddisp > 0) /\ ObsOK(ev) /\ FailedIsIdle(ev)
+    \/ ev.e = "Poll" /\ Poll(OutOf(ev)) /\ ObsOK(ev) /\ FailedIsIdle(ev)
     \/ ev.e = "User" /\ User(ev.answer) /\ ObsOK(ev)
     \/ ev.e = "Enc"  /\ Enc(ev.on) /\ ObsOK(ev)
     \/ ev.e = "Find" /\ Find(ev.which, ev.found, ev.kid, ev.dbsame) /\ ObsOK(ev)
